@@ -477,6 +477,22 @@ pub fn enumerate_loose(prog: &Program, weak_sc: bool, strong_rs: bool, op_fences
                             }
                         }
                     }
+                    if op_fences {
+                        // loom lets every read-modify-write - also a compare_exchange that fails - read the
+                        // newest executed store only: a failing CAS that reads w must execute before every
+                        // store that is mo-later than w (recorded finding F7c)
+                        let mut cas_rb: Rel = vec![0; n];
+                        let mut any = false;
+                        for i in 0..n {
+                            if evs[i].th >= 0 && kind[i] == K::R && matches!(evs[i].op, Some(Op::Cas { .. })) {
+                                cas_rb[i] = rb[i];
+                                any = true;
+                            }
+                        }
+                        if any && !acyclic(&union2(&union2(&base, &rfrel), &cas_rb)) {
+                            break 'thismo;
+                        }
+                    }
                     // consistent execution
                     res.execs += 1;
                     // races on non-atomic accesses
@@ -665,6 +681,6 @@ pub fn bracket(prog: &Program, budget: u64) -> Bracket {
     Bracket {
         a: enumerate(prog, false, true, budget),
         u: enumerate(prog, true, false, budget),
-        a_op: if nsc >= 2 { Some(enumerate_opt(prog, false, true, true, budget)) } else { None },
+        a_op: if nsc >= 2 || prog.has(|o| matches!(o, Op::Cas { .. })) { Some(enumerate_opt(prog, false, true, true, budget)) } else { None },
     }
 }
